@@ -32,6 +32,8 @@
 (*                               value of the sequential execution;          *)
 (*   ImagesVisited               every supercell image of a primitive atom   *)
 (*                               is visited by the image-scan loops;         *)
+(*   ReductionOnlyAccumulated    a reduction variable is only accumulated    *)
+(*                               into inside the region, never read as value;*)
 (*   LastprivateIndependentOfSchedule  the value a lastprivate variable has  *)
 (*                               after the region is the sequential one;     *)
 (*   SiteModelled                every construct of the site was classified; *)
@@ -68,7 +70,8 @@ Mat(f) == f @@ <<>>
 KeepStep(st, e, cls, written) ==
   IF cls[e[2]] = "shared"
   THEN IF e[2] \in written THEN [st EXCEPT !.out = Append(@, e)] ELSE st
-  ELSE IF e[2] \in st.wp THEN st
+  ELSE IF cls[e[2]] = "reduction" THEN [st EXCEPT !.out = Append(@, e)]   \* every access of a reduction variable matters
+       ELSE IF e[2] \in st.wp THEN st
        ELSE [out |-> Append(st.out, e), wp |-> IF e[1] = 1 THEN st.wp \cup {e[2]} ELSE st.wp]
 
 (* Index-level requirement of the kernels that scan the supercell for the     *)
@@ -179,6 +182,11 @@ Apply(st, i, p) ==
           ELSE IF k = 1 THEN [st EXCEPT !.sm[l] = <<i, p>>]
           ELSE IF st.sm[l] = Expected(i, p, l) THEN st
           ELSE [st EXCEPT !.rf = @ \cup {[it |-> i, idx |-> p, loc |-> l, saw |-> st.sm[l]]}]
+     ELSE IF c = "reduction"
+          THEN (* `x op= e` (logged as a write) is what a reduction is for; any other read sees the   *)
+               (* thread's partial result, which depends on the schedule                            *)
+               IF k = 1 THEN st
+               ELSE [st EXCEPT !.ud = @ \cup {[it |-> i, idx |-> p, loc |-> l, holds |-> -2]}]
      ELSE IF k = 1
           THEN IF l \in P.lp /\ (<<i, l>> \notin P.maylp \/ <<i, l>> \in taken)
                THEN [st EXCEPT !.pm[l] = 1, !.lp[l] = i]
@@ -229,7 +237,8 @@ NoDataRace ==
 
 NoConflictingIterations == P.rel = {}
 ReadsFromSequential == badRF = {}
-NoUndefinedPrivateRead == badUndef = {}
+NoUndefinedPrivateRead == \A b \in badUndef : b.holds = -2
+ReductionOnlyAccumulated == \A b \in badUndef : b.holds # -2
 ResultIndependentOfSchedule ==
   (done = Iters) => \A l \in P.written : smem[l] = PrevWriter(P.n + 1, l)
 NoOutOfBounds == pre.oob = 0
